@@ -7,6 +7,7 @@
 #include "common.h"
 #include <cerrno>
 #include <map>
+#include <random>
 #include "tbbmalloc/frontend.cpp"
 using namespace vh;
 using namespace rml::internal;
@@ -152,8 +153,101 @@ static int do_guards() {
     return 0;
 }
 
+// pool: "fixed failk (op arg)*"  ops: 1 size = pool_malloc | 2 slot = pool_free | 5 0 = pool_reset
+// the failk-th raw allocation fails once. output per malloc: first-try(0/1) retry(0/1/-1); trailer with the raw-memory ledger
+static char g_fixed_buf[8 * 1024 * 1024];
+static int do_pool() {
+    std::vector<i128> c; Out o;
+    while (read_case(c)) {
+        g_regions.clear(); g_raw_allocs = g_raw_frees = 0; g_bad_free = 0;
+        bool fixed = c[0] != 0; g_fail_at = (long)c[1];
+        rml::MemoryPool* pool = nullptr; rml::MemoryPool* other = nullptr;
+        rml::MemPoolPolicy pol(raw_alloc, fixed ? nullptr : raw_free, 0, fixed);
+        rml::MemPoolPolicy pol2(raw_alloc, raw_free);
+        long fail_save = g_fail_at; g_fail_at = -1;
+        rml::pool_create_v1(7, &pol2, &other);       // a second pool alive at the same time
+        void* foreign = rml::pool_malloc(other, 100);
+        long raw_before = g_raw_allocs; g_fail_at = fail_save >= 0 ? fail_save + raw_before : -1;
+        rml::MemPoolError e = rml::pool_create_v1(3, &pol, &pool);
+        int created = (e == rml::POOL_OK && pool) ? 1 : 0;
+        o.word("CREATED"); o.put(created);
+        std::vector<void*> slots; std::map<char*, std::pair<size_t, unsigned char>> live; int corrupt = 0, outside = 0, overlap = 0, ident_bad = 0;
+        auto check_live = [&] { for (auto& l : live) for (size_t j = 0; j < l.second.first; ++j) if ((unsigned char)l.first[j] != l.second.second) { corrupt++; break; } };
+        if (created) for (size_t i = 2; i + 1 < c.size(); i += 2) {
+            int op = (int)c[i];
+            if (op == 1) {
+                size_t sz = (size_t)c[i + 1];
+                void* p = rml::pool_malloc(pool, sz); int first = p ? 1 : 0, retry = -1;
+                if (!p) { check_live(); p = rml::pool_malloc(pool, sz); retry = p ? 1 : 0; }
+                o.put(first); o.put(retry);
+                if (p) {
+                    size_t n = sz ? sz : 1; char* cp = (char*)p;
+                    for (auto& l : live) if (cp < l.first + l.second.first && l.first < cp + n) overlap++;
+                    if (!in_regions(p, n)) outside++;
+                    if (rml::pool_identify(p) != pool) ident_bad++;
+                    unsigned char pat = (unsigned char)(0x30 + slots.size() % 64); memset(p, pat, n); live[cp] = {n, pat};
+                }
+                slots.push_back(p);
+            } else if (op == 2) {
+                size_t k = (size_t)c[i + 1];
+                if (k < slots.size() && slots[k]) { live.erase((char*)slots[k]); rml::pool_free(pool, slots[k]); slots[k] = nullptr; }
+            } else if (op == 5) {
+                check_live(); live.clear(); for (auto& sl : slots) sl = nullptr;
+                rml::pool_reset(pool);
+            }
+        }
+        check_live();
+        if (rml::pool_identify(foreign) != other) ident_bad++;
+        long raw_mine = g_raw_allocs - raw_before;
+        if (created) rml::pool_destroy(pool);
+        size_t left_after_mine = g_regions.size();
+        rml::pool_free(other, foreign); rml::pool_destroy(other);
+        o.word("RAW"); o.put(raw_mine); o.word("LEFTMINE"); o.put_u64(left_after_mine); o.word("LEFT"); o.put_u64(g_regions.size());
+        o.word("BADFREE"); o.put(g_bad_free); o.word("CORRUPT"); o.put(corrupt); o.word("OUTSIDE"); o.put(outside); o.word("OVERLAP"); o.put(overlap); o.word("IDENT"); o.put(ident_bad);
+        o.flush();
+    }
+    return 0;
+}
+
+// mt: T threads allocate patterned blocks and hand them to other threads to free (foreign frees, thread exit with live blocks)
+static int do_mt(int T, unsigned seed, int nops) {
+    struct Item { unsigned char* p; size_t n; unsigned char pat; };
+    std::vector<std::vector<Item>> inbox(T); std::vector<MallocMutex> locks(T);
+    std::atomic<long> corrupt{0}, misal{0}, small_ms{0};
+    std::vector<std::thread> th;
+    for (int t = 0; t < T; ++t) th.emplace_back([&, t] {
+        std::mt19937 rng(seed * 131 + t);
+        static const size_t szs[] = {1, 8, 9, 16, 24, 48, 64, 65, 100, 128, 500, 1024, 1025, 1792, 2688, 4033, 8128, 8129, 20000, 100000, 1 << 20};
+        for (int k = 0; k < nops; ++k) {
+            size_t n = szs[rng() % (sizeof szs / sizeof szs[0])]; unsigned char pat = (unsigned char)(rng() | 1);
+            size_t al = (rng() % 4 == 0) ? (size_t)1 << (4 + rng() % 10) : 0;
+            unsigned char* p = (unsigned char*)(al ? scalable_aligned_malloc(n, al) : (rng() % 5 == 0 ? scalable_calloc(1, n) : scalable_malloc(n)));
+            if (!p) continue;
+            if (((uintptr_t)p % (al ? al : (n <= 8 ? 8 : 16))) != 0) misal++;
+            if (scalable_msize(p) < n) small_ms++;
+            memset(p, pat, n);
+            int dst = rng() % T;
+            { MallocMutex::scoped_lock l(locks[dst]); inbox[dst].push_back({p, n, pat}); }
+            // free what others sent us (foreign frees)
+            std::vector<Item> mine; { MallocMutex::scoped_lock l(locks[t]); if (rng() % 2) mine.swap(inbox[t]); }
+            for (auto& it : mine) {
+                for (size_t j = 0; j < it.n; ++j) if (it.p[j] != it.pat) { corrupt++; break; }
+                if (rng() % 6 == 0) { size_t nn = it.n / 2 + rng() % (it.n + 1); unsigned char* q = (unsigned char*)scalable_realloc(it.p, nn ? nn : 1);
+                    if (q) { size_t keep = it.n < nn ? it.n : nn; for (size_t j = 0; j < keep; ++j) if (q[j] != it.pat) { corrupt++; break; } scalable_free(q); } else scalable_free(it.p); }
+                else scalable_free(it.p);
+            }
+        }
+    });   // threads exit with blocks still in other threads' inboxes (orphaned slabs)
+    for (auto& x : th) x.join();
+    for (int t = 0; t < T; ++t) for (auto& it : inbox[t]) { for (size_t j = 0; j < it.n; ++j) if (it.p[j] != it.pat) { corrupt++; break; } scalable_free(it.p); }
+    std::printf("CORRUPT %ld MISALIGNED %ld MSIZE %ld\n", corrupt.load(), misal.load(), small_ms.load());
+    return 0;
+}
+
 int main(int argc, char** argv) {
     std::string m = argc > 1 ? argv[1] : "";
+    if (m == "pool") return do_pool();
+    if (m == "mt") return do_mt(atoi(argv[2]), (unsigned)atoi(argv[3]), atoi(argv[4]));
     if (m == "params") return do_params();
     if (m == "sizes") return do_sizes();
     if (m == "seq") return do_seq();
